@@ -466,8 +466,10 @@ GuardsRetResolve(st, e) ==
         \* a named initialization function resolved by key: it has run when its scope was created - it is found,
         \* and resolving it constructs nothing
         (IF VoidRegs(cfg, c.k) # {}
-         THEN {G("initializer_found_by_key", {"C02", "C04"}, err = {} /\ e.res.k = "void", NONE),
-               G("initializer_not_run_again", {"C02"}, c.ctors = 0, NONE)}
+         THEN {G("initializer_found_by_key", {"C02", "C04"}, (c.failed = NONE) => (err = {} /\ e.res.k = "void"), NONE),
+               \* scoped (and singleton) ones ran when their scope was created; a transient one runs per request
+               G("initializer_not_run_again", {"C02"},
+                 \A id \in VoidRegs(cfg, c.k) : IF LifeOf(cfg, id) = "transient" THEN c.ctors >= 1 ELSE c.ctors = 0, NONE)}
          ELSE {G("unregistered_not_found", {"C04", "C15", "C17"}, "notfound" \in err, NONE)})
     ELSE IF ~HasProvider(cfg, c.t, c.k) THEN
         {G("unregistered_not_found", {"C04", "C15", "C17"}, "notfound" \in err, NONE)}
